@@ -1,0 +1,54 @@
+//go:build verif
+
+package l1
+
+// Contracts for gocv (contract-based deductive verification, /verif).
+
+//@ opaque type github.com/NethermindEth/juno/core/felt.Felt
+
+// Ghost record of what is handed to the chain as L1 head.
+//@ ghost var l1HeadCalls mathint
+//@ ghost var l1HeadBlock uint64
+//@
+//@ extern func github.com/NethermindEth/juno/blockchain.(*Blockchain).SetL1Head
+//@   assigns l1HeadCalls, l1HeadBlock
+//@   ensures l1HeadCalls == old(l1HeadCalls) + 1 && l1HeadBlock == update.BlockNumber
+
+// The L1 node's answer is an input; it does not touch the buffer.
+//@ func (*Client).finalisedHeight
+//@   trusted
+
+// The buffer of not-yet-final state updates: a removed log drops every entry at or
+// above its L1 block, anything else is stored under its L1 block.
+//@ func (*Client).applyStateUpdate
+//@   props C17
+//@   arith int
+//@   requires c != nil && stateUpdate != nil && c.nonFinalisedLogs != nil
+//@   modifies maps
+//@   loop 1: invariant vis: forall k uint64 :: visited(k) ==> (in(c.nonFinalisedLogs, k) <==> (old(in(c.nonFinalisedLogs, k)) && k < stateUpdate.L1RefHeight))
+//@   loop 1: invariant unvis: forall k uint64 :: !visited(k) ==> (in(c.nonFinalisedLogs, k) <==> old(in(c.nonFinalisedLogs, k)))
+//@   loop 1: invariant vals: forall k uint64 :: in(c.nonFinalisedLogs, k) ==> c.nonFinalisedLogs[k] == old(c.nonFinalisedLogs[k])
+//@   ensures removed: stateUpdate.Removed ==> (forall k uint64 :: in(c.nonFinalisedLogs, k) <==> (old(in(c.nonFinalisedLogs, k)) && k < stateUpdate.L1RefHeight))
+//@   ensures removed_vals: stateUpdate.Removed ==> (forall k uint64 :: in(c.nonFinalisedLogs, k) ==> c.nonFinalisedLogs[k] == old(c.nonFinalisedLogs[k]))
+//@   ensures added: !stateUpdate.Removed ==> in(c.nonFinalisedLogs, stateUpdate.L1RefHeight) && c.nonFinalisedLogs[stateUpdate.L1RefHeight] == stateUpdate
+//@   ensures added_rest: !stateUpdate.Removed ==> (forall k uint64 :: k != stateUpdate.L1RefHeight ==> ((in(c.nonFinalisedLogs, k) <==> old(in(c.nonFinalisedLogs, k))) && c.nonFinalisedLogs[k] == old(c.nonFinalisedLogs[k])))
+
+// The recorded L1 head: the buffered entry with the highest L1 block at or below the
+// finalised height (never one above it); everything at or below is dropped from the buffer.
+//@ func (*Client).setL1Head
+//@   props C17
+//@   arith int
+//@   requires c != nil && c.nonFinalisedLogs != nil && c.l2Chain != nil
+//@   requires nonnil: forall k uint64 :: in(c.nonFinalisedLogs, k) ==> c.nonFinalisedLogs[k] != nil
+//@   modifies *
+//@   assigns l1HeadCalls, l1HeadBlock
+//@   loop 1: invariant vis: forall k uint64 :: visited(k) ==> (in(c.nonFinalisedLogs, k) <==> (old(in(c.nonFinalisedLogs, k)) && k > finalisedHeight))
+//@   loop 1: invariant unvis: forall k uint64 :: !visited(k) ==> (in(c.nonFinalisedLogs, k) <==> old(in(c.nonFinalisedLogs, k)))
+//@   loop 1: invariant vals: forall k uint64 :: in(c.nonFinalisedLogs, k) ==> c.nonFinalisedLogs[k] == old(c.nonFinalisedLogs[k])
+//@   loop 1: invariant none: maxFinalisedHead == nil <==> (forall k uint64 :: visited(k) ==> !(old(in(c.nonFinalisedLogs, k)) && k <= finalisedHeight))
+//@   loop 1: invariant best: maxFinalisedHead != nil ==> (old(in(c.nonFinalisedLogs, maxFinalisedNumber)) && maxFinalisedNumber <= finalisedHeight && maxFinalisedHead == old(c.nonFinalisedLogs[maxFinalisedNumber]) && (forall k uint64 :: visited(k) && old(in(c.nonFinalisedLogs, k)) && k <= finalisedHeight ==> k <= maxFinalisedNumber))
+//@   loop 1: invariant zero: maxFinalisedHead == nil ==> maxFinalisedNumber == 0
+//@   loop 1: invariant calls: l1HeadCalls == old(l1HeadCalls)
+//@   ensures nocall_when_none: (forall k uint64 :: !old(in(c.nonFinalisedLogs, k))) ==> l1HeadCalls == old(l1HeadCalls)
+//@   ensures atmostonce: l1HeadCalls == old(l1HeadCalls) || l1HeadCalls == old(l1HeadCalls) + 1
+//@   ensures chosen: l1HeadCalls == old(l1HeadCalls) + 1 ==> (exists k uint64 :: old(in(c.nonFinalisedLogs, k)) && l1HeadBlock == old(c.nonFinalisedLogs[k].L2BlockNumber) && (forall j uint64 :: old(in(c.nonFinalisedLogs, j)) && j > k ==> in(c.nonFinalisedLogs, j)))
